@@ -345,8 +345,10 @@ pub fn json_to_js_value_with_guard(
             let obj = interp.create_object(guard);
             for (key, value) in map {
                 let js_value = json_to_js_value_with_guard(interp, value, guard)?;
-                let interned_key = PropertyKey::String(interp.intern(key));
-                obj.borrow_mut().set_property(interned_key, js_value);
+                // canonical key: "0" must become PropertyKey::Index(0), as member
+                // access and computed keys look it up
+                let property_key = interp.property_key(key);
+                obj.borrow_mut().set_property(property_key, js_value);
             }
             JsValue::Object(obj)
         }
